@@ -328,8 +328,20 @@ class ExcAnalysis:
                 out.add(p)
         return frozenset(out)
 
-    def _eval_none(self, test, none):
-        """True / False / None(unknown) of a test given parameters known to be None"""
+    def _eval_none(self, test, none, alias=None):
+        """True / False / None(unknown) of a test given parameters known to be None (alias: local names bound
+        once to a test, `polar = phase is not None`)"""
+        if alias:
+            if isinstance(test, ast.Name) and test.id in alias:
+                return self._eval_none(alias[test.id], none)
+            if isinstance(test, ast.UnaryOp) and isinstance(test.op, ast.Not):
+                v = self._eval_none(test.operand, none, alias)
+                return None if v is None else (not v)
+            if isinstance(test, ast.BoolOp):
+                vals = [self._eval_none(v, none, alias) for v in test.values]
+                if isinstance(test.op, ast.And):
+                    return False if any(v is False for v in vals) else (True if all(v is True for v in vals) else None)
+                return True if any(v is True for v in vals) else (False if all(v is False for v in vals) else None)
         if isinstance(test, ast.Compare) and len(test.ops) == 1 and isinstance(test.left, ast.Name) and \
            isinstance(test.comparators[0], ast.Constant) and test.comparators[0].value is None:
             if test.left.id in none:
@@ -363,11 +375,19 @@ class ExcAnalysis:
         reassigned = {n.id for n in walk_no_nested(func.node) if isinstance(n, ast.Name) and
                       isinstance(n.ctx, ast.Store)}
         none = {p for p in none if p not in reassigned}
+        # local names bound exactly once (by a plain assignment at the top level of the function) to a test
+        nstore = {}
+        for n in walk_no_nested(func.node):
+            if isinstance(n, ast.Name) and isinstance(n.ctx, ast.Store):
+                nstore[n.id] = nstore.get(n.id, 0) + 1
+        alias = {st.targets[0].id: st.value for st in func.body()
+                 if isinstance(st, ast.Assign) and len(st.targets) == 1 and isinstance(st.targets[0], ast.Name)
+                 and nstore.get(st.targets[0].id) == 1 and isinstance(st.value, (ast.Compare, ast.BoolOp, ast.UnaryOp))}
         child = node
         p = parent(node)
         while p is not None and p is not func.node:
             if isinstance(p, ast.If):
-                v = self._eval_none(p.test, none)
+                v = self._eval_none(p.test, none, alias)
                 if v is not None:
                     in_body = any(child is s for s in p.body)
                     in_else = any(child is s for s in p.orelse)
